@@ -214,7 +214,7 @@ impl Scenario for Batch {
         if tier == "thorough" {
             2_000_000
         } else {
-            200_000
+            120_000
         }
     }
 
@@ -269,9 +269,9 @@ impl Scenario for Batch {
             calls.push(Call { op, text_regs, expect_err, bad_item });
         }
         // a few batches per tier run against a buffer that has already grown past 2^28 resp. 2^32 bytes
-        let prefill_zeros = if run % 100_000 == 7 {
+        let prefill_zeros = if run % 60_000 == 7 {
             (1u64 << 28) - 16 + r.below(64)
-        } else if run % 200_000 == 11 {
+        } else if run % 120_000 == 11 {
             (1u64 << 32) - 16 + r.below(64)
         } else {
             0
